@@ -54,6 +54,7 @@ class Run:
 
     def __init__(self, pid):
         self.pid = pid
+        self.owner = os.getpid()     # forked workers must never clean up
         self.t0 = time.time()
         base = os.environ.get("VERIF_TMP", "/tmp")
         self.dir = tempfile.mkdtemp(prefix="verif-%s-" % pid, dir=base)
@@ -79,7 +80,7 @@ class Run:
         os._exit(128 + signo)
 
     def cleanup(self):
-        if self._keep:
+        if self._keep or os.getpid() != self.owner:
             return
         d, self.dir = self.dir, None
         if d and os.path.isdir(d):
